@@ -40,6 +40,14 @@ def anchor_programs():
     out.append(({"features": [ft([sc(["pending"], ["wip"]), sc(["pending"]), sc(["pass", "skip", "pass"]), sc(["undefined", "pass"])]),
                               ft([ru([sc(["pass"])], ["t1"]), ru([sc(["fail"]), sc(["pass"])], bg=["error"])])], "family": "anchor"},
                 [G.cfg(), G.cfg(dry=True), G.cfg(stop=True), G.cfg(expr="not_t1")], [[0, 0], [6, 0], [7, 8]]))
+    # outlines that never run: a feature / rule after a --stop or an abort, or behind a failing before_feature / before_rule
+    # hook -- their rows are built by nobody during the run, the live summary still has to count them (untested)
+    never = {"features": [ft([sc(["pass"]), sc(["fail"])]),
+                          ft([ol([([], [["pass"], ["pass"]])]), ru([ol([(["t1"], [["pass", "pass"]]), ([], [["fail", "pass"]])])], bg=["pass"])]),
+                          ft([ru([sc(["pass"]), ol([([], [["pass"]])])])], bg=["pass"])], "family": "anchor"}
+    out.append((never, [G.cfg(stop=True), G.cfg()], [[0, 0]] + [[k, 0] for k in range(1, 19)]))
+    out.append(({"features": [ft([sc(["pass"]), sc(["kbd"]), ol([([], [["pass"], ["fail"]])])]), ft([ol([([], [["pass", "pass"], ["pass", "pass"]])])])],
+                 "family": "anchor"}, [G.cfg(), G.cfg(stop=True)], [[0, 0], [1, 0], [2, 0]]))
     return out
 
 
@@ -65,9 +73,16 @@ def make_jobs(chk):
             for fi, f in enumerate(faults):
                 jobs.append((900000 + k, ci + 1, fi + 1, p, c, f))
     out = []
-    for tid, ci, fi, p, c, f in jobs:
-        out.append({"key": [tid, ci, fi], "prog": p, "flat": G.flatten(p), "cfg": c, "fault": f,
-                    "fault_kind": "assert" if (tid + ci + fi) % 3 == 0 else "exc", "reports": True, "plugins": ["c14"]})
+    for n, (tid, ci, fi, p, c, f) in enumerate(jobs):
+        job = {"key": [tid, ci, fi], "prog": p, "flat": G.flatten(p), "cfg": c, "fault": f,
+               "fault_kind": "assert" if (tid + ci + fi) % 3 == 0 else "exc", "reports": True, "plugins": ["c14"]}
+        if n % 5:
+            # 4 of 5 runs: the summary reporter alone, as in a plain `behave` run.  The JUnit reporter (called before the
+            # summary reporter) and the rerun formatter walk every scenario and thereby build the rows of outlines that
+            # never ran -- with them switched on the live summary cannot show a reporter that forgets such rows.
+            job["formats"] = []
+            job["extra_args"] = ["--no-junit"]
+        out.append(job)
     return out, total
 
 
@@ -254,7 +269,8 @@ def run(chk):
     escaped = 0
     cover = {k: {} for k in ("feature", "rule", "scenario", "step")}
     classes = {"stop": 0, "dry": 0, "cont": 0, "hook_fault": 0, "deselecting_expr": 0, "escaped": 0, "untested_remainder": 0,
-               "with_rule": 0, "with_outline": 0, "all_skipped": 0}
+               "with_rule": 0, "with_outline": 0, "all_skipped": 0, "summary_reporter_alone": 0,
+               "live_judged_with_never_run_outline": 0}
     for job, row in zip(jobs, out):
         if "driver_error" in row:
             raise RuntimeError("driver failed on %s:\n%s" % (row["key"], row["driver_error"]))
@@ -262,7 +278,8 @@ def run(chk):
         jr = run_row(rid, job, row)
         rows.append(jr)
         meta[rid] = {"input": {"prog": job["prog"], "cfg": job["cfg"], "fault": job["fault"]},
-                     "payload": {"kind": "run", "prog": job["prog"], "cfg": job["cfg"], "fault": job["fault"], "fault_kind": job["fault_kind"]}}
+                     "payload": {"kind": "run", "prog": job["prog"], "cfg": job["cfg"], "fault": job["fault"], "fault_kind": job["fault_kind"],
+                                 "alone": "formats" in job}}
         kinds = [e["kind"] for e in job["flat"]["elems"]]
         for k, s in zip(kinds, jr["end"]["status"]):
             if k in cover:
@@ -280,6 +297,11 @@ def run(chk):
         classes["untested_remainder"] += "untested" in [s for k, s in zip(kinds, jr["end"]["status"]) if k == "scenario"] and not c["dry"]
         classes["with_rule"] += "rule" in kinds
         classes["with_outline"] += "outline" in kinds
+        classes["summary_reporter_alone"] += "formats" in job
+        elems = job["flat"]["elems"]
+        classes["live_judged_with_never_run_outline"] += bool(
+            jr["end"]["live_ok"] and not c["dry"] and "formats" in job and
+            any(e["kind"] == "outline" and e["children"] and all(jr["end"]["status"][x - 1] == "untested" for x in e["children"]) for e in elems))
         classes["all_skipped"] += all(s == "skipped" for k, s in zip(kinds, jr["end"]["status"]) if k == "feature")
     verdicts = trace.judge_rows(chk, "Summary_Trace", rows, chunks=max(1, min(16, WORKERS)), min_chunk=100)
     chk.impl_traces = len(rows)
@@ -345,6 +367,8 @@ def replay(chk, payload):
         flat = G.flatten(rp["prog"])
         job = {"key": [1, 1, 1], "prog": rp["prog"], "flat": flat, "cfg": rp["cfg"], "fault": rp["fault"],
                "fault_kind": rp.get("fault_kind", "exc"), "reports": True, "plugins": ["c14"]}
+        if rp.get("alone"):
+            job["formats"], job["extra_args"] = [], ["--no-junit"]
         out = drive.run_case(job, reports=True)
         row = run_row(1, job, out)
         inp = {"prog": rp["prog"], "cfg": rp["cfg"], "fault": rp["fault"]}
